@@ -33,6 +33,18 @@ func strLit(e ast.Expr) (string, bool) {
 	return "", false
 }
 
+func exprString(e ast.Expr) string {
+	switch x := e.(type) {
+	case *ast.Ident:
+		return x.Name
+	case *ast.SelectorExpr:
+		return exprString(x.X) + "." + x.Sel.Name
+	case *ast.BasicLit:
+		return x.Value
+	}
+	return "?"
+}
+
 func run(repo string) (string, error) {
 	var b strings.Builder
 	b.WriteString("namespace ZV.Generated.C26\n\n")
@@ -72,6 +84,14 @@ func run(repo string) (string, error) {
 	b.WriteString("def suites : List (Nat × Bool) := " + zvx.LeanList(items) + "\n\n")
 
 	items = items[:0]
+	for _, s := range tls.ZVSuites() {
+		items = append(items, fmt.Sprintf("(0x%04X, %d, %d, %d, %v)", s.ID, s.MacLen, s.KeyLen, s.IVLen, s.SHA384))
+	}
+	b.WriteString("/-- implementedCipherSuites: (id, macLen, keyLen, ivLen, flags&suiteSHA384 != 0), in table order: the lengths\n")
+	b.WriteString("establishKeys passes to keysFromMasterSecret -/\n")
+	b.WriteString("def suiteRows : List (Nat × Nat × Nat × Nat × Bool) := " + zvx.LeanList(items) + "\n\n")
+
+	items = items[:0]
 	for _, s := range tls.ZVSuites13() {
 		hn := map[string]string{"SHA-256": "sha256", "SHA-384": "sha384", "SHA-512": "sha512"}[s.Hash.String()]
 		if hn == "" {
@@ -85,8 +105,9 @@ func run(repo string) (string, error) {
 	// syntactic facts
 	fset := token.NewFileSet()
 	consts := map[string]string{}
-	var calls, prefix, reserved, prfLabels []string
-	for _, file := range []string{"prf.go", "key_schedule.go"} {
+	var calls, prefix, reserved, prfLabels, schedCalls, keysCalls []string
+	for _, file := range []string{"prf.go", "key_schedule.go", "handshake_client.go", "handshake_client_tls13.go", "handshake_server.go", "handshake_server_tls13.go", "conn.go"} {
+		lib := file == "prf.go" || file == "key_schedule.go"
 		f, err := parser.ParseFile(fset, filepath.Join(repo, "tls", file), nil, 0)
 		if err != nil {
 			return "", err
@@ -111,6 +132,55 @@ func run(repo string) (string, error) {
 				continue
 			}
 			ast.Inspect(fd.Body, func(n ast.Node) bool {
+				if !lib {
+					// the handshake code: which label / length arguments it passes to the key-derivation functions
+					x, ok := n.(*ast.CallExpr)
+					if !ok {
+						return true
+					}
+					name := ""
+					switch fn := x.Fun.(type) {
+					case *ast.SelectorExpr:
+						name = fn.Sel.Name
+					case *ast.Ident:
+						name = fn.Name
+					}
+					switch name {
+					case "deriveSecret", "expandLabel":
+						if len(x.Args) >= 2 {
+							arg := "<non-constant>"
+							if s, ok := strLit(x.Args[1]); ok {
+								arg = s
+							} else if id, ok := x.Args[1].(*ast.Ident); ok {
+								if v, ok := consts[id.Name]; ok {
+									arg = v
+								}
+							}
+							schedCalls = append(schedCalls, fmt.Sprintf("(%s, %s, %s, %s)", zvx.LeanStr(file), zvx.LeanStr(fd.Name.Name), zvx.LeanStr(name), zvx.LeanStr(arg)))
+						}
+					case "nextTrafficSecret", "exportKeyingMaterial", "finishedHash", "extract":
+						if _, isSel := x.Fun.(*ast.SelectorExpr); isSel && file != "handshake_client.go" || name == "extract" || name == "finishedHash" {
+							if file == "handshake_client.go" && fd.Name.Name != "loadSession" {
+								return true
+							}
+							schedCalls = append(schedCalls, fmt.Sprintf("(%s, %s, %s, %s)", zvx.LeanStr(file), zvx.LeanStr(fd.Name.Name), zvx.LeanStr(name), zvx.LeanStr("-")))
+						}
+					case "keysFromMasterSecret":
+						// keysFromMasterSecret(vers, suite, master, clientRandom, serverRandom, suite.macLen, suite.keyLen, suite.ivLen)
+						var parts []string
+						for _, a := range x.Args {
+							parts = append(parts, exprString(a))
+						}
+						keysCalls = append(keysCalls, fmt.Sprintf("(%s, %s, %s)", zvx.LeanStr(file), zvx.LeanStr(fd.Name.Name), zvx.LeanStr(strings.Join(parts, ","))))
+					case "masterFromPreMasterSecret":
+						var parts []string
+						for _, a := range x.Args {
+							parts = append(parts, exprString(a))
+						}
+						keysCalls = append(keysCalls, fmt.Sprintf("(%s, %s, %s)", zvx.LeanStr(file), zvx.LeanStr(fd.Name.Name), zvx.LeanStr("master:"+strings.Join(parts, ","))))
+					}
+					return true
+				}
 				switch x := n.(type) {
 				case *ast.CallExpr:
 					// prfForVersion(version, suite)(out, secret, <label>, seed)
@@ -175,6 +245,12 @@ func run(repo string) (string, error) {
 	b.WriteString("def ekmReserved : List String := " + zvx.LeanList(reserved) + "\n\n")
 	b.WriteString("/-- (function, label constant's value) for the PRF calls with a named label in tls/prf.go -/\n")
 	b.WriteString("def prfLabelUses : List (String × String) := " + zvx.LeanList(prfLabels) + "\n\n")
+	b.WriteString("/-- the TLS 1.3 key schedule as the handshake code wires it: every call of deriveSecret / expandLabel (with its label\n")
+	b.WriteString("literal) / extract / finishedHash / nextTrafficSecret / exportKeyingMaterial in the handshake files, in source order\n")
+	b.WriteString("(file, enclosing function, callee, label) -/\n")
+	b.WriteString("def scheduleCalls : List (String × String × String × String) := " + zvx.LeanList(schedCalls) + "\n\n")
+	b.WriteString("/-- the argument lists of the keysFromMasterSecret / masterFromPreMasterSecret calls of the handshake code (source text) -/\n")
+	b.WriteString("def keyCalls : List (String × String × String) := " + zvx.LeanList(keysCalls) + "\n\n")
 	b.WriteString("end ZV.Generated.C26\n")
 	return b.String(), nil
 }
